@@ -14,8 +14,12 @@ from vf.core import Sub
 
 RULE = ("one decomposable operation (scalar gates with .H, Interferometer under all 7 meshes, GaussianTransform, Gaussian(V, r), "
         "GraphEmbed, BipartiteGraphEmbed) on an ordered target tuple inside a register with spectators, compiled for "
-        "fock/gaussian/bosonic; non-trivial = the compiled sequence differs from the source and the documented map is not the "
-        "identity; distinct = distinct JSON")
+        "fock/gaussian/bosonic or decomposed directly with op.decompose(reg) (the only way to reach DisplacedSqueezed._decompose), "
+        "optionally the same operation object applied twice and compiled twice; unitaries of size 1..7 incl. ones known to 9 "
+        "decimals only; symplectics with squeezing 1e-4 .. 2; graph matrices of size 1..4 incl. complex non-symmetric edge "
+        "matrices, exactly degenerate complex / real symmetric matrices, integer adjacency matrices, drop_identity=False; "
+        "non-trivial = the compiled sequence differs from the source and the documented map is not the identity; "
+        "distinct = distinct JSON")
 ASSUMPTIONS = [
     "documented maps are those of the ops.py docstrings as encoded in vf/refsim.py (self-tested); sMZgate has no documented "
     "matrix and is only checked where a second implementation exists (C11)",
@@ -23,11 +27,21 @@ ASSUMPTIONS = [
     "GraphEmbed oracle: thewalrus.quantum.Amat of the prepared covariance is proportional (positive factor) to conj(A) and "
     "the total mean photon number equals n * mean_photon_per_mode",
     "GaussianTransform(vacuum=True) is only compared on vacuum input (documented)",
+    "a unitary rounded to 9 decimals (|U U^dag - 1| ~ 1e-9 < tol = 1e-6) is a valid Interferometer argument; the documented map is "
+    "the rounded matrix itself, the decomposition must match it to the same 1e-7 (observed <= 1.4e-9); not generated for "
+    "mesh='sun_compact', which refuses such matrices (audit finding, out/audit/C02-sun-compact-rejects-unitary-accurate-to-1e-9.json)",
+    "exactly degenerate complex symmetric graph matrices for which numpy's SVD shows one of the two takagi instabilities "
+    "(13-decimal rounding boundary inside the degenerate cluster; overlap matrix with a double eigenvalue -1) are skipped "
+    "(< 1.5 % of that class; audit findings out/audit/C02-takagi-*.json); edge matrices are exactly symmetric or asymmetric by >= 1e-3",
+    "thewalrus.quantum.adj_scaling is trusted (used to recompute the matrix that the embedding hands to takagi)",
 ]
 REQUIRED_LABELS = {"all": ["dagger", "targets_not_sorted", "mesh:rectangular", "mesh:triangular", "mesh:rectangular_symmetric",
-                           "matrix:perm", "matrix:identity", "matrix:perm_realdtype", "op:CXgate", "op:Pgate", "op:GaussianTransform", "op:Gaussian", "op:GraphEmbed"]}
+                           "matrix:perm", "matrix:identity", "matrix:perm_realdtype", "op:CXgate", "op:Pgate", "op:GaussianTransform", "op:Gaussian", "op:GraphEmbed",
+                           "direct_decompose", "same_object_twice", "mesh:sun_compact", "size>=6", "unitary_to_9_decimals",
+                           "embed_target:fock", "drop_identity_false"]}
 
-SCALAR = ["Xgate", "Zgate", "Pgate", "Fouriergate", "CXgate", "CZgate", "S2gate", "MZgate", "DisplacedSqueezed"]
+# Hypothesis draws the two ends of a sampled_from list far more often than the middle: the composite two-mode gates sit there
+SCALAR = ["CXgate", "Xgate", "Zgate", "Pgate", "Fouriergate", "DisplacedSqueezed", "MZgate", "S2gate", "CZgate"]
 TARGETS = ["gaussian", "fock", "bosonic"]
 MESHES = ["rectangular", "rectangular_phase_end", "rectangular_symmetric", "triangular", "rectangular_compact",
           "triangular_compact", "sun_compact"]
@@ -58,34 +72,67 @@ def scalar_case(draw):
     hbar = draw(st.sampled_from([2.0, 2.0, 1.0, 0.5, 3.3]))
     op = draw(gen.op_spec(n, SCALAR, "ps"))
     target = draw(st.sampled_from(TARGETS))
-    return {"n": n, "hbar": hbar, "op": op, "target": target}
+    # direct: one level of op.decompose(reg) instead of Program.compile.  DisplacedSqueezed is a primitive of all three
+    # compilers, so its _decompose is only reachable this way (compiling it compares the oracle with itself)
+    direct = op[0] == "DisplacedSqueezed" or draw(st.integers(0, 4)) == 0
+    # again: the SAME operation object is applied a second time, to another ordered choice of targets
+    again = None
+    if draw(st.integers(0, 3)) == 0:
+        again = list(draw(st.permutations(list(range(n))))[:len(op[2])])
+    return {"n": n, "hbar": hbar, "op": op, "target": target, "direct": direct, "again": again}
 
 
 def check_scalar(ctx, case):
+    import strawberryfields as sf
+    from strawberryfields import ops
     from strawberryfields.program_utils import CircuitError
 
     n, hbar, op, target = case["n"], case["hbar"], case["op"], case["target"]
-    doc = spec.ref_run(n, [op], hbar)
+    direct, again = bool(case.get("direct")), case.get("again")
+    applied = [op] + ([[op[0], op[1], again, op[3]]] if again else [])
+    doc = spec.ref_run(n, applied, hbar)
+    runs = []
     try:
-        specs, _ = compile_specs(n, [op], target, hbar)
+        with sfrun.HbarCtx(hbar):
+            prog = sf.Program(n)
+            obj = spec.make_op(ops, op[0], op[1], op[3])
+            with prog.context as q:
+                for _, _, modes, _ in applied:
+                    obj | tuple(q[m] for m in modes)
+            if direct:
+                cmds = []
+                for cmd in prog.circuit:
+                    cmds += cmd.op.decompose(cmd.reg)
+                runs.append(spec.circuit_to_specs(cmds))
+            else:
+                runs.append(spec.circuit_to_specs(prog.compile(compiler=target).circuit))
+                if again:  # compiling a second time must not be affected by the first compilation
+                    runs.append(spec.circuit_to_specs(prog.compile(compiler=target).circuit))
     except CircuitError:
         ctx.note(case, False, ["rejected:" + target])
         return None
     except Exception as exc:  # pylint: disable=broad-except
         return ctx.crash(exc, "compile." + op[0])
-    changed = [s[0] for s in specs] != [op[0]]
+    specs = runs[0]
+    changed = [s[0] for s in specs] != [op[0]] * len(applied)
     labels = ["op:" + op[0], "target:" + target] + gen.labels_of([op])
     if len(op[2]) == 2 and op[2][0] > op[2][1]:
         labels.append("targets_not_sorted")
+    if direct:
+        labels += ["direct_decompose", "direct:" + op[0]]
+    if again:
+        labels.append("same_object_twice")
     ident = map_diff(doc, refsim.Ref(n, hbar)) < 1e-12
     ctx.note(case, nontrivial=changed and not ident, labels=labels + (["decomposed"] if changed else ["native"]))
-    try:
-        got = spec.ref_run(n, specs, hbar)
-    except refsim.RefError as exc:
-        return ctx.fail("compiled_unknown_op.%s" % op[0], str(exc))
-    d = map_diff(doc, got)
-    if d > 1e-8 * hbar:
-        return ctx.fail("decomposition_wrong.%s%s" % (op[0], ".H" if op[3].get("H") else ""), "compiled for %s: %s differs from the documented map by %.3g" % (target, [s[0] for s in specs], d))
+    for k, sp in enumerate(runs):
+        try:
+            got = spec.ref_run(n, sp, hbar)
+        except refsim.RefError as exc:
+            return ctx.fail("compiled_unknown_op.%s" % op[0], str(exc))
+        d = map_diff(doc, got)
+        if d > 1e-8 * hbar:
+            how = "decompose()" if direct else "compiled for %s%s" % (target, " (second compilation)" if k else "")
+            return ctx.fail("decomposition_wrong.%s%s" % (op[0], ".H" if op[3].get("H") else ""), "%s: %s differs from the documented map by %.3g" % (how, [s[0] for s in sp], d))
     return None
 
 
@@ -159,7 +206,14 @@ def check_sweep(ctx, case):
 # ---------------------------------------------------------------------------------------------
 @st.composite
 def interf_case(draw):
-    k = draw(st.integers(1, 5))
+    # sun_compact needs k >= 3 and recurses once per extra mode: it gets two shares of the meshes and its own sizes
+    mesh = (MESHES + ["sun_compact"])[draw(st.integers(0, len(MESHES)))]
+    if mesh == "sun_compact":
+        k = draw(st.sampled_from([5, 3, 4, 6, 7, 2, 4]))
+    else:
+        k = draw(st.integers(1, 5))
+        if draw(st.integers(0, 6)) == 3:
+            k = draw(st.sampled_from([6, 7]))
     extra = draw(st.integers(0, 2))
     n = k + extra
     modes = list(draw(st.permutations(list(range(n))))[:k])
@@ -169,8 +223,14 @@ def interf_case(draw):
         if draw(st.booleans()):
             U = U * np.array(draw(st.lists(st.sampled_from([1.0, -1.0]), min_size=k, max_size=k)))
         kind = kind + "_realdtype"
-    mesh = draw(st.sampled_from(MESHES))
-    return {"n": n, "modes": modes, "U": spec.enc_matrix(U), "kind": kind, "mesh": mesh,
+    rounded = False
+    # a unitary known to 9 decimals only (read from a text file, say): |U U^dag - 1| ~ 1e-9, far inside the documented
+    # acceptance tolerance tol = 1e-6 of Interferometer but outside the defaults (1e-11, 1e-12) of decompositions.py
+    # AUDIT-FINDING sun-compact-rejects-unitary-accurate-to-1e-9: mesh='sun_compact' refuses these (fixed 1e-10 in _su2_parameters)
+    if mesh != "sun_compact" and kind in ("haar", "orth", "block", "bs_product", "permdiag", "orth_realdtype") and draw(st.integers(0, 3)) == 0:
+        U = np.round(U, 9)
+        rounded = True
+    return {"n": n, "modes": modes, "U": spec.enc_matrix(U), "kind": kind, "mesh": mesh, "rounded": rounded,
             "drop_identity": draw(st.booleans()), "target": draw(st.sampled_from(["gaussian", "fock"]))}
 
 
@@ -187,10 +247,15 @@ def _n8_trigger(U):
     element, or a phase (deviation of a unit-modulus element from +-1, +-i), of size 1e-11..1e-5 are affected."""
     a = np.abs(np.asarray(U)).ravel()
     small = np.any((a > 1e-11) & (a < 1e-5))
+    # the phase of ANY sizeable element (not only of unit-modulus ones): after a staircase step the element becomes a
+    # unit-modulus entry of the remaining block, e.g. the beamsplitter [[c, -s e^{-1e-9 i}], [s e^{1e-9 i}, c]] embedded in 5x5
     z = np.asarray(U).ravel()
-    z = z[np.abs(np.abs(z) - 1) < 1e-5]
+    z = z[np.abs(z) >= 1e-5]
     ph = np.abs(np.angle(z ** 4)) / 4 if len(z) else np.array([])
-    return bool(small or np.any((ph > 1e-11) & (ph < 1e-5)))
+    # sun_compact first divides out det(U)^(1/n): a single phase phi leaves phases ~ phi / n, which np.isclose(., 1, 1e-6, 1e-6)
+    # takes for 1 up to phi ~ 2e-6 n (= the catalogued 1e-5 for n = 5; sizes 6 and 7 reach further)
+    hi = max(1e-5, 2.5e-6 * len(np.asarray(U)))
+    return bool(small or np.any((ph > 1e-11) & (ph < hi)))
 
 
 def check_interf(ctx, case):
@@ -206,6 +271,10 @@ def check_interf(ctx, case):
         labels.append("targets_not_sorted")
     if np.any(np.abs(U) == 0):
         labels.append("matrix_has_exact_zero")
+    if case.get("rounded"):
+        labels.append("unitary_to_9_decimals")
+    if k >= 6:
+        labels.append("size>=6")
     doc = refsim.Ref(n, 2.0)
     doc.Interferometer(U, modes)
     prog = sf.Program(n)
@@ -246,12 +315,26 @@ def check_interf(ctx, case):
 # ---------------------------------------------------------------------------------------------
 # GaussianTransform
 # ---------------------------------------------------------------------------------------------
+# squeezing values the shared generator (0 or 0.05..0.7) never produces: weak squeezers that the "is this squeezer the
+# identity" / "is S passive" thresholds (1e-13) must keep, and strong ones.  Weak values stay >= 1e-4 and differ by >= 9e-5
+# so that they are outside the window of the open finding N3 (values closer than 1e-5)
+GT_EXTREME_R = [1e-3, 1e-4, 1.5, 2.0, 0.0, 0.3]
+
+
 @st.composite
 def gt_case(draw):
     k = draw(st.integers(1, 4))
     n = k + draw(st.integers(0, 2))
     modes = list(draw(st.permutations(list(range(n))))[:k])
-    kind, r, S = draw(gen.symplectic(k, 0.7))
+    if draw(st.integers(0, 3)) == 0:
+        kind = "weak_or_strong"
+        r = [draw(st.sampled_from(GT_EXTREME_R)) for _ in range(k)]
+        if not any(r):
+            r[0] = 1e-3
+        Z = np.diag(np.concatenate([np.exp(-np.array(r)), np.exp(np.array(r))]))
+        S = gen.orth_symplectic(draw(gen.unitary(k))[1]) @ Z @ gen.orth_symplectic(draw(gen.unitary(k))[1])
+    else:
+        kind, r, S = draw(gen.symplectic(k, 0.7))
     return {"n": n, "modes": modes, "S": spec.enc_matrix(S), "kind": kind, "r": r, "vacuum": draw(st.booleans()),
             "target": draw(st.sampled_from(["gaussian", "fock"]))}
 
@@ -295,6 +378,10 @@ def check_gt(ctx, case):
     rr = np.abs(np.asarray(case["r"]))
     if len(set(np.round(rr, 12))) < len(rr):
         labels.append("degenerate_spectrum")
+    if np.any((rr > 0) & (rr < 0.01)):
+        labels.append("weak_squeezer")
+    if np.any(rr > 1.0):
+        labels.append("strong_squeezer")
     prog = sf.Program(n)
     try:
         with prog.context as q:
@@ -342,7 +429,9 @@ def gp_case(draw):
     modes = list(draw(st.permutations(list(range(n))))[:k])
     hbar = draw(st.sampled_from([2.0, 2.0, 1.0, 3.3]))
     kind, V = draw(gen.covariance(k, hbar))
-    r = [draw(gen.fl(-1.0, 1.0)) * np.sqrt(hbar / 2) for _ in range(2 * k)] if draw(st.booleans()) else None
+    # entries that are exactly 0 are frequent: the decomposition emits an Xgate/Zgate only for the non-zero entries, so the
+    # mode a displacement lands on must not depend on how many entries before it vanish
+    r = [draw(st.one_of(st.just(0.0), gen.fl(-1.0, 1.0), gen.fl(-1.0, 1.0))) * np.sqrt(hbar / 2) for _ in range(2 * k)] if draw(st.booleans()) else None
     return {"n": n, "modes": modes, "hbar": hbar, "V": spec.enc_matrix(V), "kind": kind, "r": r, "decomp": draw(st.sampled_from([True, True, False])),
             "backend": draw(st.sampled_from(["gaussian", "bosonic"]))}
 
@@ -369,6 +458,10 @@ def check_gp(ctx, case):
     labels = ["op:Gaussian", "cov:" + case["kind"], "decomp" if case["decomp"] else "native", "backend:" + case["backend"]]
     if modes != sorted(modes):
         labels.append("targets_not_sorted")
+    if r is not None and np.any(r != 0):
+        nz = np.flatnonzero(r[:k] != 0), np.flatnonzero(r[k:] != 0)
+        if any(len(z) and z[-1] >= len(z) for z in nz):
+            labels.append("mean_zero_before_nonzero")
     # correlated prior so that "cuts the correlations" is tested as well
     prior = [["Sgate", [0.3, 0.4], [0], {}]] + ([["BSgate", [0.7, 0.3], [0, n - 1], {}]] if n > 1 else [])
     with sfrun.HbarCtx(hbar):
@@ -409,12 +502,34 @@ def check_gp(ctx, case):
 # graph embeddings
 # ---------------------------------------------------------------------------------------------
 @st.composite
+def _multiplicity_list(draw, k, signed=False):
+    """k values from {0} + [0.2, 1] (optionally with signs) with explicitly drawn multiplicities 1..3"""
+    vals = []
+    while len(vals) < k:
+        v = draw(st.one_of(gen.fl(0.2, 1.0), gen.fl(0.2, 1.0), st.just(0.0)))
+        grp = [v] * draw(st.integers(1, 3))
+        if signed:
+            grp = [x * draw(st.sampled_from([1.0, -1.0])) for x in grp]
+        vals += grp
+    vals = vals[:k]
+    if not any(vals):
+        vals[0] = 0.5
+    return list(draw(st.permutations(vals)))
+
+
+GE_KINDS_SYM = ["complex_degenerate", "real_sym", "adjacency", "complex_sym", "complex_degenerate", "rank1", "diag", "identity",
+                "scaled_identity", "real_degenerate"]
+GE_KINDS_BIP = ["complex_general", "real_general", "perm", "complex_general"]  # not symmetric: edge matrices of BipartiteGraphEmbed only
+
+
+@st.composite
 def ge_case(draw):
-    k = draw(st.integers(2, 4))
     which = draw(st.sampled_from(["GraphEmbed", "GraphEmbed", "Bipartite_edges", "Bipartite_full"]))
-    kind = draw(st.sampled_from(["real_sym", "adjacency", "complex_sym", "rank1", "diag", "identity", "scaled_identity", "real_general", "perm"]))
-    if which == "GraphEmbed" and kind in ("real_general", "perm"):
-        kind = "real_sym"
+    k = draw(st.sampled_from([2, 3, 4, 1]))
+    kind = draw(st.sampled_from(GE_KINDS_SYM if which == "GraphEmbed" else GE_KINDS_BIP[:1] + GE_KINDS_SYM + GE_KINDS_BIP[1:]))
+    if k == 1 and kind in ("adjacency", "rank1", "perm", "complex_degenerate", "real_degenerate"):
+        kind = "complex_sym"
+    threshold = True
     if kind == "adjacency":
         bits = draw(st.lists(st.integers(0, 1), min_size=k * k, max_size=k * k))
         A = np.triu(np.array(bits, float).reshape(k, k), 1)
@@ -432,21 +547,102 @@ def ge_case(draw):
         A = np.eye(k) * draw(st.sampled_from([0.5, 0.999, 2.0]))
     elif kind == "perm":
         A = np.eye(k)[list(draw(st.permutations(list(range(k)))))]
+    elif kind == "complex_degenerate":
+        # A = W D W^T, W unitary, D >= 0 with repeated (and vanishing) entries: the Takagi values of A are the entries of D, so
+        # the complex branch of decompositions.takagi has to treat whole degenerate subspaces (D = 1: A = W W^T unitary)
+        W = draw(gen.unitary(k, ["haar", "haar", "diag", "permdiag", "block", "bs_product"]))[1]
+        D = np.ones(k) if draw(st.integers(0, 3)) == 0 else np.array(draw(_multiplicity_list(k)))
+        A = W @ np.diag(D) @ W.T
+        A = (A + A.T) / 2
+        threshold = False
+    elif kind == "real_degenerate":
+        # real symmetric with repeated eigenvalues, also +a and -a (equal Takagi values from eigenvalues of opposite sign)
+        O = draw(gen.unitary(k, ["orth", "orth", "perm", "identity"]))[1].real
+        A = O @ np.diag(np.array(draw(_multiplicity_list(k, signed=True)))) @ O.T
+        A = (A + A.T) / 2
+        threshold = False
     else:
-        G = draw(gen.ginibre(k, complex_=(kind == "complex_sym")))
-        A = (G + G.T) / 2 if kind != "real_general" else G
+        G = draw(gen.ginibre(k, complex_=kind in ("complex_sym", "complex_general")))
+        A = (G + G.T) / 2 if kind not in ("real_general", "complex_general") else G
         if np.max(np.abs(A)) < 0.05:
             A = A + np.eye(k)
     # entries below 1e-3 are set to exactly 0: the operations treat matrices within `tol` (1e-6) of symmetric as symmetric
     # (documented), so sub-tolerance asymmetries are not reproduced; boundary-of-tolerance behaviour belongs to C17
-    A = np.where(np.abs(A) < 1e-3, 0.0, A)
+    if threshold:
+        A = np.where(np.abs(A) < 1e-3, 0.0, A)
+        if np.iscomplexobj(A):  # ... also for the real and the imaginary parts separately ([[0, 1j], [1e-6 + 1j, 0]] is within tol of symmetric)
+            A = np.where(np.abs(A.real) < 1e-3, 0.0, A.real) + 1j * np.where(np.abs(A.imag) < 1e-3, 0.0, A.imag)
     if not A.any():
         A = A + np.eye(k)
+    if k > 1 and 0 < float(np.max(np.abs(A - A.T))) < 1e-3:
+        # an edge matrix is either exactly symmetric or clearly (>= 1e-3) not: inside `tol` of symmetric is C17's subject
+        A = A.copy()
+        A[0, k - 1] += 0.01
     nmodes = k if which == "GraphEmbed" else 2 * k
     n = nmodes + draw(st.integers(0, 1))
     modes = list(draw(st.permutations(list(range(n))))[:nmodes])
-    return {"which": which, "kind": kind, "A": spec.enc_matrix(A), "n": n, "modes": modes, "mean_photon": draw(gen.fl(0.05, 1.0)),
-            "make_traceless": which == "GraphEmbed" and kind not in ("identity", "scaled_identity") and draw(st.integers(0, 2)) == 0}
+    return {"which": which, "kind": kind, "A": spec.enc_matrix(A), "n": n, "modes": modes,
+            "mean_photon": draw(st.one_of(gen.fl(0.05, 1.0), gen.fl(0.05, 1.0), st.sampled_from([2.5, 0.01]))),
+            "make_traceless": which == "GraphEmbed" and kind not in ("identity", "scaled_identity") and draw(st.integers(0, 2)) == 0,
+            # documented option of BipartiteGraphEmbed (default True): False keeps the trivial S2gates / interferometers
+            "drop_identity": which == "GraphEmbed" or draw(st.booleans()),
+            # 0/1 adjacency matrices handed over as integer arrays
+            "int_dtype": kind == "adjacency" and draw(st.booleans()),
+            "target": draw(st.sampled_from(["gaussian", "fock"]))}
+
+
+def _scaled_for_takagi(A, which, mp):
+    """the matrix the embedding hands to decompositions.takagi (None if it takes the SVD route): scale * A with the
+    thewalrus.quantum.adj_scaling factor for the requested mean photon number"""
+    from thewalrus.quantum import adj_scaling
+
+    A = np.asarray(A)
+    k = len(A)
+    if which == "GraphEmbed":
+        return adj_scaling(A, k * mp) * A
+    if not np.allclose(A, A.T, rtol=0, atol=1e-6):
+        return None
+    B = np.block([[np.zeros((k, k)), A], [A.T, np.zeros((k, k))]])
+    return adj_scaling(B, 2 * k * mp) * A
+
+
+def _takagi_exact_degenerate_unstable(A, which, mp):
+    """AUDIT-FINDING takagi-exact-degenerate-split, AUDIT-FINDING takagi-degenerate-sqrtm-branch-cut.
+    For a complex symmetric matrix decompositions.takagi finds degenerate subspaces by np.round(singular values, 13) and takes
+    scipy.linalg.sqrtm of the overlap Q = v^T w of each subspace.  For an EXACTLY degenerate matrix (the class
+    'complex_degenerate' of ge_case) two things go wrong, each for about 1 in 700 such matrices:
+      'split'       the computed singular values differ by rounding noise (~1e-16) and a 13-decimal rounding boundary happens to
+                    fall between them: the subspace is split and the returned W is not unitary at all (error 0.1 .. 0.8).  Same
+                    root cause as the open finding N1 but below its catalogued window (relative gap 1e-15 .. 1e-6), larger effect.
+      'branch_cut'  Q has two (numerically equal) eigenvalues at -1, the branch cut of the principal square root: sqrtm returns a
+                    non-normal root ([[-i, x], [0, i]]) and W is not unitary (error ~0.1).
+    Either way the embedding raises 'The input matrix is not unitary' (or prepares a wrong state).  Both situations are
+    recognised here from numpy's SVD of the matrix the embedding decomposes (no repo code involved) and such inputs are skipped.
+    Returns the reason or None."""
+    try:
+        M = _scaled_for_takagi(A, which, mp)
+    except Exception:  # pylint: disable=broad-except
+        return None
+    if M is None or np.isrealobj(np.real_if_close(M)):
+        return None
+    v, sv, wh = np.linalg.svd(np.real_if_close(M))
+    w = wh.conj().T
+    for a, b in zip(sv[:-1], sv[1:]):
+        if a - b <= 3e-15 * sv[0] and np.floor((a + 4e-16) * 1e13 + 0.5) != np.floor((b - 4e-16) * 1e13 + 0.5):
+            return "split"
+    rl = np.round(sv, 13)
+    i = 0
+    while i < len(rl):
+        j = i
+        while j + 1 < len(rl) and rl[j + 1] == rl[i]:
+            j += 1
+        if j > i:
+            g = list(range(i, j + 1))
+            ev = np.linalg.eigvals(v[:, g].T @ w[:, g])
+            if int(np.sum(np.abs(ev + 1) < 1e-6)) >= 2:
+                return "branch_cut"
+        i = j + 1
+    return None
 
 
 def _takagi_near_degenerate(A, which, mp):
@@ -507,6 +703,22 @@ def check_ge(ctx, case):
         if float(np.max(np.abs(full))) < 1e-6:
             ctx.note(case, False, labels + ["traceless_part_vanishes"])
             return None
+    target = case.get("target", "gaussian")
+    labels.append("embed_target:" + target)
+    if k == 1:
+        labels.append("graph_1x1")
+    if not case.get("drop_identity", True):
+        labels.append("drop_identity_false")
+        kw["drop_identity"] = False
+    if case.get("int_dtype"):
+        labels.append("int_dtype")
+        arg = np.asarray(arg).astype(int)
+    if not 0.05 <= mp <= 1.0:
+        labels.append("mean_photon_extreme")
+    unstable = _takagi_exact_degenerate_unstable(full if mt else A, which, mp)
+    if unstable:
+        ctx.note(case, False, labels + ["excluded:takagi_exact_degenerate_" + unstable])
+        return None
     prog = sf.Program(n)
     try:
         with prog.context as q:
@@ -515,7 +727,7 @@ def check_ge(ctx, case):
                 ops.GraphEmbed(arg, mean_photon_per_mode=mp, **kw) | regs
             else:
                 ops.BipartiteGraphEmbed(arg, mean_photon_per_mode=mp, **kw) | regs
-        comp = prog.compile(compiler="gaussian")
+        comp = prog.compile(compiler=target)
     except Exception as exc:  # pylint: disable=broad-except
         ctx.note(case, True, labels)
         return ctx.crash(exc, which)
@@ -537,7 +749,8 @@ def check_ge(ctx, case):
         if _takagi_near_degenerate(full if mt else A, which, mp):
             return ctx.fail("takagi.near_degenerate_cluster_split_by_rounding", "graph embedding of a matrix with nearly (not exactly) equal singular values: takagi returns a non-unitary W")
         is_identity = np.allclose(arg, np.eye(len(arg)), atol=1e-13)
-        if is_identity and len(specs) == 0:
+        # F40 is about the default drop_identity=True; with drop_identity=False nothing may be dropped
+        if is_identity and len(specs) == 0 and case.get("drop_identity", True):
             return ctx.fail("F40.graph_embed_identity_matrix", "%s(identity matrix) decomposes to nothing: mean photon number %.3g instead of %.3g" % (which, nbar, nm * mp))
         return ctx.fail("graph_embed.wrong_state.%s" % which, "kind=%s: adjacency block proportional to conj(A): %s (c=%s), mean photons %.6g vs %.6g" % (case["kind"], not bad_prop, c, nbar, nm * mp))
     other = [m for m in range(n) if m not in modes]
@@ -548,17 +761,17 @@ def check_ge(ctx, case):
 
 SUBS = [
     Sub("scalar_decomp", check=check_scalar, strategy=lambda ctx: scalar_case(), examples={"quick": 800, "thorough": 8000},
-        shards={"quick": 1, "thorough": 16}, rule="scalar decomposable gates/preparations with .H on ordered targets, 3 compile targets, 4 hbar values"),
+        shards={"quick": 1, "thorough": 16}, rule="scalar decomposable gates/preparations with .H on ordered targets, 3 compile targets or op.decompose() directly, 4 hbar values, same object applied / compiled twice"),
     Sub("symbolic_sweep", check=check_sweep, enumerate=sweep_cases, shards={"quick": 2, "thorough": 8}, exhaustive=False,
         rule="_decompose called with a sympy symbol; product parameters lambdified and evaluated on a dense grid over [-8, 8] + special values"),
     Sub("interferometer", check=check_interf, strategy=lambda ctx: interf_case(), examples={"quick": 500, "thorough": 5000},
-        shards={"quick": 2, "thorough": 16}, rule="Interferometer(U) for structured unitaries of size 1..5 under each of the 7 meshes, both drop_identity values"),
+        shards={"quick": 2, "thorough": 16}, rule="Interferometer(U) for structured unitaries of size 1..7 (also rounded to 9 decimals) under each of the 7 meshes, both drop_identity values"),
     Sub("gaussian_transform", check=check_gt, strategy=lambda ctx: gt_case(), examples={"quick": 300, "thorough": 3000},
-        shards={"quick": 1, "thorough": 16}, rule="GaussianTransform(S) active/passive/degenerate, vacuum both ways"),
+        shards={"quick": 1, "thorough": 16}, rule="GaussianTransform(S) active/passive/degenerate, squeezing 1e-4..2, vacuum both ways"),
     Sub("gaussian_prep", check=check_gp, strategy=lambda ctx: gp_case(), examples={"quick": 300, "thorough": 3000},
-        shards={"quick": 1, "thorough": 16}, rule="Gaussian(V, r) decomposed and native on unsorted target subsets with a correlated prior"),
-    Sub("graph_embed", check=check_ge, strategy=lambda ctx: ge_case(), examples={"quick": 250, "thorough": 2500},
-        shards={"quick": 1, "thorough": 16}, rule="GraphEmbed / BipartiteGraphEmbed (edges both ways) on structured matrices"),
+        shards={"quick": 1, "thorough": 16}, rule="Gaussian(V, r) decomposed and native on unsorted target subsets with a correlated prior; means with exact zeros"),
+    Sub("graph_embed", check=check_ge, strategy=lambda ctx: ge_case(), examples={"quick": 500, "thorough": 5000},
+        shards={"quick": 1, "thorough": 16}, rule="GraphEmbed / BipartiteGraphEmbed (edges both ways, drop_identity both ways, fock and gaussian) on structured matrices incl. exactly degenerate and complex non-symmetric ones"),
 ]
 
 MANIFEST = {
